@@ -1,1 +1,93 @@
-(* placeholder *)
+(** C03 — abort restores the exact pre-transaction state.
+    Objects: Model/Engine.v (row-level engine: heap rows, write sets, index
+    maintenance timing, commit / abort processing, row locks through
+    Model/Lock.v).  [ereachable s]: s is the result of ANY sequence of operations
+    of any number of transactions from the empty table with any indexed columns.
+    [tx_ops t ops]: every operation of [ops] is a data operation (insert, delete,
+    in-place update, relocating update, read) of transaction [t] - the row ids
+    are inputs checked for legality by the model.  Statements only. *)
+From Coq Require Import List NArith ZArith Bool Permutation.
+From SDB Require Import Base.Assoc Model.Lock Model.SqlRef Model.Engine Proofs.EngineProofs.
+Import ListNotations.
+Open Scope N_scope.
+
+(** After ANY statement sequence of [t] followed by the abort, the heap is the
+    same finite map as when [t] began: same rids, same rows, same delete marks.
+    This covers the case in which an operation of [ops] was denied a lock (or
+    found its row gone) and aborted [t] half-way: the rest of [ops] then runs as
+    a fresh incarnation of [t] and is rolled back by the final abort. *)
+Theorem abort_restores_rows : forall s t ops, ereachable s ->
+  agetl (wsets s) t = [] -> tx_ops t ops ->
+  forall r, aget (rows (erun (ops ++ [OpAbort t]) s)) r = aget (rows s) r.
+Proof. exact abort_restores_rows_lemma. Qed.
+Print Assumptions abort_restores_rows.
+
+(** Every index holds the same multiset of (key, rid) entries as before, so every
+    point lookup and range scan gives the same answer. *)
+Theorem abort_restores_indexes : forall s t ops, ereachable s ->
+  agetl (wsets s) t = [] -> tx_ops t ops ->
+  Forall2 (fun a b => fst a = fst b /\ Permutation (snd a) (snd b))
+          (idx (erun (ops ++ [OpAbort t]) s)) (idx s).
+Proof. exact abort_restores_indexes_lemma. Qed.
+Print Assumptions abort_restores_indexes.
+
+(** The abort triggered by a lock conflict (or by a vanished / delete-marked
+    row) inside operation [o] restores exactly the same state as the explicit
+    abort, and leaves [t] with an empty write set. *)
+Theorem conflict_abort_same : forall s t ops o, ereachable s ->
+  agetl (wsets s) t = [] -> tx_ops t ops -> eop_txn o = t ->
+  snd (estep (erun ops s) o) = EAborted ->
+  (forall r, aget (rows (fst (estep (erun ops s) o))) r = aget (rows s) r) /\
+  Forall2 (fun a b => fst a = fst b /\ Permutation (snd a) (snd b))
+          (idx (fst (estep (erun ops s) o))) (idx s) /\
+  agetl (wsets (fst (estep (erun ops s) o))) t = [].
+Proof. exact conflict_abort_same_lemma. Qed.
+Print Assumptions conflict_abort_same.
+
+(** Throughout any run of [t] (data operations, commit, abort - hence every
+    prefix of it) a rid on which [t] never holds an X lock keeps its row and, in
+    every index, all its entries. *)
+Theorem abort_leaves_others : forall s t ops r, ereachable s ->
+  Forall (fun o => eop_txn o = t) ops ->
+  (forall n, ~ holdsX (lk (erun (firstn n ops) s)) t r) ->
+  aget (rows (erun ops s)) r = aget (rows s) r /\
+  Forall2 (fun a b => fst a = fst b /\ forall k, cnt (k, r) (snd a) = cnt (k, r) (snd b))
+          (idx (erun ops s)) (idx s).
+Proof. exact abort_leaves_others_lemma. Qed.
+Print Assumptions abort_leaves_others.
+
+(** Non-vacuity.  Committed rows 10, 11, 12 (columns 0 and 2 indexed); 3 holds an
+    S lock on row 12.  Transaction 2: insert, in-place update of an indexed and
+    of a non-indexed column, relocating update, second change of the relocated
+    row, delete, delete of its own insert. *)
+Definition c03_base : estate :=
+  erun [OpInsert 1 10 [VInt 5; VInt 1; VStr [97]]; OpInsert 1 11 [VInt 6; VInt 1; VStr [98]];
+        OpInsert 1 12 [VInt 7; VInt 2; VStr [99]]; OpCommit 1; OpRead 3 12]
+       (einit [0%nat; 2%nat]).
+
+Definition c03_ops : list eop :=
+  [OpInsert 2 13 [VInt 8; VInt 8; VStr [100]];
+   OpUpdate 2 10 [VInt 50; VInt 1; VStr [97]];
+   OpUpdate 2 10 [VInt 50; VInt 9; VStr [97]];
+   OpUpdateMove 2 11 14 [VInt 6; VInt 1; VStr [98; 98; 98]];
+   OpUpdate 2 14 [VInt 60; VInt 1; VStr [98; 98; 98]];
+   OpDelete 2 14; OpDelete 2 13; OpRead 2 13].
+
+Example c03_nonvacuous :
+  eouts c03_ops c03_base = [EOk; EOk; EOk; EOk; EOk; EOk; EOk; ESkipped] /\
+  length (agetl (wsets (erun c03_ops c03_base)) 2) = 7%nat /\
+  ilookup (erun c03_ops c03_base) 0 (VInt 5) = [] /\
+  ilookup (erun c03_ops c03_base) 0 (VInt 60) = [14] /\
+  rows (erun (c03_ops ++ [OpAbort 2]) c03_base) = rows c03_base /\
+  ilookup (erun (c03_ops ++ [OpAbort 2]) c03_base) 0 (VInt 5) = [10] /\
+  ilookup (erun (c03_ops ++ [OpAbort 2]) c03_base) 0 (VInt 60) = [] /\
+  ilookup (erun (c03_ops ++ [OpAbort 2]) c03_base) 2 (VStr [98]) = [11].
+Proof. vm_compute. repeat split. Qed.
+
+(** ... and the conflict case: the delete of row 12 (S-locked by 3) is denied,
+    which aborts 2 and restores the same state. *)
+Example c03_conflict_nonvacuous :
+  snd (estep (erun c03_ops c03_base) (OpDelete 2 12)) = EAborted /\
+  rows (fst (estep (erun c03_ops c03_base) (OpDelete 2 12))) = rows c03_base /\
+  ilookup (fst (estep (erun c03_ops c03_base) (OpDelete 2 12))) 0 (VInt 5) = [10].
+Proof. vm_compute. repeat split. Qed.
